@@ -305,6 +305,10 @@ const SEEDS: &[&str] = &[
     "from t | join (from u | derive {d2 = d + 1}) (==a) | select {t.a, u.d, u.d2}",
     "from t | join (from u | select {a, d = d + 1}) (==a) | select {t.a, u.d}",
     "from t | append (from u | derive {a = a + 1}) | select {a}",
+    // named values used in two pipelines: every use is a column of its own pipeline
+    "let cols = {p = 1, q = 2}\nfrom t | derive cols | join (from u | derive cols) true",
+    "let k = 5\nfrom t | derive {x = k} | join (from u | derive {x = k, y = k}) (==a) | select {t.x, u.y}",
+    "let twice = e -> {p = e, q = e}\nfrom t | select (twice a) | join (from u | select (twice d)) (p == u.p)",
     // a joined sub-pipeline that exposes the name `a` twice (recorded finding)
     "let q = (from t | select {a, b})\nfrom q | join u (==a) | join r=(from u | join l=q (u.d == l.b)) true",
     "let q = (from t | select {a, b})\nfrom t | join r=(from u | join l=q (u.d == l.b)) (t.a == r.d) | select {t.a, r.d, r.b}",
